@@ -342,6 +342,18 @@ pub struct RunResult {
 
 /// new_chain(chain=0) with ChaCha8(seed), set_position(start), then `n` expanded draws.
 pub fn run_chain<S: Settings>(settings: &S, dens: Dens, seed: u64, start: &[f64], n: usize) -> RunResult {
+    run_chain_retry(settings, dens, seed, start, n, 0)
+}
+
+thread_local! {
+    /// number of failed set_position attempts of the last `run_chain_retry` on this thread
+    pub static LAST_INIT_RETRIES: std::cell::Cell<usize> = const { std::cell::Cell::new(0) };
+}
+
+/// like `run_chain`, but a set_position that fails with an error (not a panic) is retried on the
+/// same chain object up to `retries` times with a slightly shifted start point - what the parallel
+/// sampler's initialisation loop does with fresh initial points
+pub fn run_chain_retry<S: Settings>(settings: &S, dens: Dens, seed: u64, start: &[f64], n: usize, retries: usize) -> RunResult {
     let log = dens.log.clone();
     let mut rng = ChaCha8Rng::seed_from_u64(seed);
     let math = CpuMath::new(dens);
@@ -356,20 +368,34 @@ pub fn run_chain<S: Settings>(settings: &S, dens: Dens, seed: u64, start: &[f64]
             }
         }
     };
-    match catch_unwind(AssertUnwindSafe(|| chain.set_position(start))) {
-        Ok(Ok(())) => {}
-        Ok(Err(e)) => {
-            return RunResult {
-                draws: vec![],
-                end: RunEnd::SetPositionErr(format!("{e:#}")),
-                n_eval_after_init: log.borrow().n_eval,
+    let mut attempt = 0usize;
+    loop {
+        let st: Vec<f64> = start.iter().map(|x| x + 0.01 * attempt as f64).collect();
+        match catch_unwind(AssertUnwindSafe(|| chain.set_position(&st))) {
+            Ok(Ok(())) => {
+                LAST_INIT_RETRIES.with(|c| c.set(attempt));
+                break;
             }
-        }
-        Err(p) => {
-            return RunResult {
-                draws: vec![],
-                end: RunEnd::SetPositionPanicked(panic_msg(&p)),
-                n_eval_after_init: log.borrow().n_eval,
+            Ok(Err(e)) => {
+                LAST_INIT_RETRIES.with(|c| c.set(attempt));
+                // an unrecoverable error ends the chain in the sampler's loop as well
+                let fatal = format!("{e:#}").contains("Unrecoverable") || format!("{e:?}").contains("LogpFailure");
+                if attempt < retries && !fatal {
+                    attempt += 1;
+                    continue;
+                }
+                return RunResult {
+                    draws: vec![],
+                    end: RunEnd::SetPositionErr(format!("{e:#}")),
+                    n_eval_after_init: log.borrow().n_eval,
+                };
+            }
+            Err(p) => {
+                return RunResult {
+                    draws: vec![],
+                    end: RunEnd::SetPositionPanicked(panic_msg(&p)),
+                    n_eval_after_init: log.borrow().n_eval,
+                }
             }
         }
     }
